@@ -104,6 +104,10 @@ def correspond(ctx: C.Ctx, cov: C.Coverage) -> List[C.Disagreement]:
                 "non-trivial = object has >=1 falsy leaf or depth>=2 or a stress string; distinct = by canonical value")
     poly = ["poly", meta.IDENTIFIABLE_CLASSES + meta.SUBMODEL_ELEMENT_CLASSES]
     lines, expect, index = [], [], []
+    # the adapter has been used in every other mode before (first thing in this process): see interfere()
+    objs = list(objs)
+    for _, o_, _ in objs[:4]:
+        interfere(o_)
     for i, obj, stats in objs:
         v = T.to_val(obj)
         data = xml_bytes(obj)
